@@ -737,6 +737,13 @@ def check_markers(program, rep):
                         f"{pt}.get('kwargs', {{}}).update" \
                         and len(e.sym.node.args) == 1:
                     a0 = e.sym.node.args[0]
+                    # a list / generator of (key, value) pairs is the same
+                    # update as the dict comprehension
+                    if isinstance(a0, (ast.ListComp, ast.GeneratorExp)) \
+                            and isinstance(a0.elt, ast.Tuple) and len(
+                                a0.elt.elts) == 2:
+                        a0 = ast.DictComp(a0.elt.elts[0], a0.elt.elts[1],
+                                          a0.generators)
                     if isinstance(a0, ast.DictComp) and len(
                             a0.generators) == 1 and norm(
                                 a0.generators[0].iter) == \
